@@ -326,6 +326,10 @@ def inline_expression_helpers(tree, public):
     for n in tree.body:
         if isinstance(n, ast.FunctionDef) and n.name not in helpers:
             n.body = [T().visit(s) for s in n.body]
+        elif isinstance(n, ast.ClassDef):
+            for m in n.body:
+                if isinstance(m, ast.FunctionDef):
+                    m.body = [T().visit(s) for s in m.body]
     live = {x.id for n in tree.body if not (isinstance(n, ast.FunctionDef) and n.name in helpers)
             for x in ast.walk(n) if isinstance(x, ast.Name) and isinstance(x.ctx, ast.Load)}
     tree.body = [n for n in tree.body if not (isinstance(n, ast.FunctionDef) and n.name in helpers and n.name not in live)]
@@ -432,6 +436,10 @@ def inline_helpers(tree, public):
         for n in tree.body:
             if isinstance(n, ast.FunctionDef):
                 n.body = _map_body(n.body, f)
+            elif isinstance(n, ast.ClassDef):
+                for m in n.body:
+                    if isinstance(m, ast.FunctionDef):
+                        m.body = _map_body(m.body, f)
         changed = ast.dump(tree) != before
     used = {n.id for n in ast.walk(tree) if isinstance(n, ast.Name) and isinstance(n.ctx, ast.Load)}
     still = set()
@@ -481,13 +489,31 @@ def keywords_to_positional(tree, signatures, aliases):
     return T().visit(tree)
 
 
-def normalise_light(tree):
+def swap_is_not_none(tree):
+    """`if X is not None: A else: B` is `if X is None: B else: A`"""
+    def f(stmts):
+        for s in stmts:
+            if (isinstance(s, ast.If) and s.orelse and isinstance(s.test, ast.Compare) and len(s.test.ops) == 1
+                    and isinstance(s.test.ops[0], ast.IsNot) and isinstance(s.test.left, ast.Name)
+                    and isinstance(s.test.comparators[0], ast.Constant) and s.test.comparators[0].value is None
+                    and not (len(s.orelse) == 1 and isinstance(s.orelse[0], ast.If))):
+                s.test.ops = [ast.Is()]
+                s.body, s.orelse = s.orelse, s.body
+        return stmts
+    tree.body = _map_body(tree.body, f)
+    return tree
+
+
+def normalise_light(tree, signatures=None, aliases=None):
     """the rewrites that do not move code between functions (used for tlv.py and cvn.py)"""
     tree = inline_constants(tree)
     tree = fold_zero_bytes(tree)
     tree = drop_zero_lower_bounds(tree)
     tree = split_chained_compares(tree)
     tree = ifexp_to_if(tree)
+    tree = swap_is_not_none(tree)
+    if signatures:
+        tree = keywords_to_positional(tree, signatures, aliases or {})
     return ast.fix_missing_locations(tree)
 
 
